@@ -1290,6 +1290,8 @@ impl RaftLogManager {
                     log_actor.do_send(RaftLogCmd::Close);
                 }
                 let path = Self::get_log_path(&self.base_path, &item.log_range);
+                #[cfg(rnacos_verif)]
+                crate::verif_hook::unlink_sync(&path);
                 std::fs::remove_file(path).ok();
             }
             self.logs = self.logs[..log_count].to_vec();
